@@ -588,6 +588,87 @@ fn family_deep(dmax: usize, wall: Duration) -> Stats {
     )
 }
 
+// (vi) chains: one scope per level, the openers following every pattern of period <= 3 over { ( <, to a depth no
+// fixed-size buffer of a plausible size covers; (vii) a two- and a three-byte letter at every offset 0..=40 behind
+// every opener (look-ahead windows are counted in characters, not bytes)
+fn family_chains_and_wide_letters(dmax: usize, wall: Duration) -> Stats {
+    let start = Instant::now();
+    let col = Collector::new();
+    let mut inputs: Vec<String> = vec![];
+    let mut patterns: Vec<Vec<char>> = vec![];
+    for a in ['{', '(', '<'] {
+        patterns.push(vec![a]);
+        for b_ in ['{', '(', '<'] {
+            patterns.push(vec![a, b_]);
+            for c in ['{', '(', '<'] {
+                patterns.push(vec![a, b_, c]);
+            }
+        }
+    }
+    let close = |o: char| match o {
+        '{' => '}',
+        '(' => ')',
+        _ => '>',
+    };
+    for p in &patterns {
+        for d in 1..=dmax {
+            let mut s = String::new();
+            let mut stack = vec![];
+            for i in 0..d {
+                let o = p[i % p.len()];
+                s.push('a');
+                s.push(o);
+                stack.push(o);
+            }
+            s.push_str("{x,y}");
+            while let Some(o) = stack.pop() {
+                s.push(close(o));
+            }
+            inputs.push(s);
+        }
+    }
+    let n_chains = inputs.len();
+    for o in ['{', '(', '<'] {
+        for wide in ["\u{e9}", "\u{4e2d}"] {
+            for k in 0..=40usize {
+                // at top level, and inside a scope that is already broken
+                inputs.push(format!("T{o}{}{wide}b,u{}", "a".repeat(k), close(o)));
+                inputs.push(format!("s{{f:T{o}{}{wide}{wide},u{},g:{{h}}}}", "a".repeat(k), close(o)));
+            }
+        }
+    }
+    inputs.par_iter().for_each(|input| {
+        if col.stop.load(Ordering::Relaxed) {
+            return;
+        }
+        col.states.fetch_add(1, Ordering::Relaxed);
+        col.transitions.fetch_add(1, Ordering::Relaxed);
+        match check_erasure(input) {
+            Err((sig, d)) => col.violation(sig, d, input),
+            Ok(out) => {
+                col.outcomes.lock().unwrap().insert(outcome_class(&out));
+                if let Err(e) = check_indentation(&out) {
+                    col.violation("C15/indentation".into(), format!("format_type_description({input:?}) = {out:?}: {e}"), input);
+                }
+            }
+        }
+        if start.elapsed() > wall {
+            col.stop.store(true, Ordering::Relaxed);
+        }
+    });
+    let capped = col.stop.load(Ordering::Relaxed);
+    col.into_stats(
+        &format!(
+            "D-fmt(vi, vii): {n_chains} chains (39 opener patterns of period <= 3, depth 1..={dmax}); a 2-byte and a 3-byte letter at every offset 0..=40 behind each opener, at top level and inside a broken scope"
+        ),
+        dmax as u32,
+        start,
+        !capped,
+        if capped { Some(format!("wall cap {wall:?} hit")) } else { None },
+        vec!["a{a(a<{x,y}>)}".into(), "T(aaa\u{e9}b,u)".into()],
+    )
+}
+
 // (iv) every description the crate itself produces for the Polkadot registry and the D-arms registries
 fn family_descriptions(wall: Duration) -> Stats {
     use crate::drivers::*;
@@ -692,6 +773,7 @@ pub fn run(tier: &str, seed: u64) -> i32 {
         if thorough { 13 } else { 10 },
         Duration::from_secs(if thorough { 600 } else { 60 }),
     ));
+    report.add(family_chains_and_wide_letters(if thorough { 80 } else { 40 }, Duration::from_secs(60)));
     report.add(family_descriptions(Duration::from_secs(120)));
     report.assumptions = vec![
         "termination is observed as completion of every call inside the run's wall budget (the formatter consumes one input character per loop iteration)".into(),
